@@ -549,6 +549,13 @@ class LayoutTyper(Structured):
                     # V.take(i, axis=A): indexing one attribute away
                     ax = kw.get('axis', e.args[1] if len(e.args) > 1 else None)
                     return self.reduce(e, recv, ax, env, rep)
+                if name in ('flatten', 'ravel') and (e.args or 'order' in kw):
+                    o = kw.get('order', e.args[0] if e.args else None)
+                    ok = isinstance(o, ast.Constant) and o.value == 'C'
+                    rep('axis-by-name', e, ok,
+                        'the cells of a table laid out by %s are enumerated in row-major order of that domain (order=\'C\', the default); '
+                        '`%s` follows the MEMORY layout instead, which for a transposed / projected view is the order of some other domain'
+                        % (show(recv.a) if recv.kind == 'arr' else '?', U(e)))
                 if name in ('copy', 'astype', 'flatten', 'ravel', 'clip'):
                     return recv
                 if name == 'reshape' and len(e.args) == 1:
